@@ -76,7 +76,7 @@ pub fn patterns(maxlen: usize) -> Vec<String> {
     all
 }
 pub const EXTRA: &[&str] = &[
-    "x\nx\n", "x\nx", "x x", "xx\r\nx", "x.x", "x\rx\n", "\n\nx", "xx x", "x\n\nx\n", "xxx", "xxxx", "xx xx", "x\nx\nx\n", "x x x", "x\r\n\r\nx",
+    "W", "xW", "Wx", "W W", "xW\nW", "x\nx\n", "x\nx", "x x", "xx\r\nx", "x.x", "x\rx\n", "\n\nx", "xx x", "x\n\nx\n", "xxx", "xxxx", "xx xx", "x\nx\nx\n", "x x x", "x\r\n\r\nx",
 ];
 
 pub fn make_diff<'a>(s: &Shape, ot: &'a SymTxt, nt: &'a SymTxt) -> TextDiff<'a, 'a, 'a, SymTxt> {
@@ -270,6 +270,21 @@ impl Text {
                     claim!(from_hunks == all, "UnifiedDiffHunk::iter_changes over all hunks (radius 1000) differs from iter_all_changes");
                 } else {
                     claim!(from_hunks.is_empty(), "hunks without changes");
+                }
+                // a hunk built by hand from a sub-selection of the ops (non-consecutive ops):
+                // its iteration is still the concatenation of the per-op expansions
+                let picked: Vec<DiffOp> = ops.iter().copied().filter(|o| o.tag() != DiffTag::Equal).collect();
+                if !picked.is_empty() {
+                    let hunk = similar::udiff::UnifiedDiffHunk::new(picked.clone(), &diff, true);
+                    let got = changes_key(&hunk.iter_changes().collect::<Vec<_>>());
+                    let want: Vec<_> = picked.iter().flat_map(|op| changes_key(&diff.iter_changes(op).collect::<Vec<_>>())).collect();
+                    claim!(got == want, "UnifiedDiffHunk::iter_changes over a sub-selection of ops {:?} is not the concatenation of their expansions", picked);
+                    let mut rev = picked.clone();
+                    rev.reverse();
+                    let hunk = similar::udiff::UnifiedDiffHunk::new(rev.clone(), &diff, true);
+                    let got = changes_key(&hunk.iter_changes().collect::<Vec<_>>());
+                    let want: Vec<_> = rev.iter().flat_map(|op| changes_key(&diff.iter_changes(op).collect::<Vec<_>>())).collect();
+                    claim!(got == want, "UnifiedDiffHunk::iter_changes over reversed ops {:?} is not the concatenation of their expansions", rev);
                 }
                 // re-applying an op to a capturing hook reproduces the op
                 for op in &ops {
@@ -501,7 +516,7 @@ impl Prop for Text {
         };
         Meta {
             functions,
-            bounds: format!("texts = every pattern of length <= {} over {{ordinary char, space, LF, CR, punctuation}} plus {} longer patterns (up to 8 characters / 5 tokens), all ordered pairs, x 5 tokenizers x 3 algorithms; ordinary characters are symbolic (unbounded alphabet), classes are concrete; the element type is SymTxt, so the generic text layer runs symbolically", match tier { Tier::Quick => 2, Tier::Thorough => 3 }, EXTRA.len()),
+            bounds: format!("texts = every pattern of length <= {} over {{ordinary char, space, LF, CR, punctuation}} plus {} longer patterns (up to 8 characters / 5 tokens, some with two-unit characters), all ordered pairs, x 5 tokenizers x 3 algorithms; ordinary characters are symbolic (unbounded alphabet), classes are concrete; the element type is SymTxt, so the generic text layer runs symbolically", match tier { Tier::Quick => 2, Tier::Thorough => 3 }, EXTRA.len()),
             outside: "the tokenizers of str and [u8] themselves (decided by Kani in C06; unicode words / graphemes of the real types are not decided); longer texts; the >100-token path of TextDiffConfig::diff is covered separately (C14 skeleton family)".into(),
             assumptions: vec![
                 "SymTxt's own tokenizers partition the text (checked on every path) and follow the documented shapes; they stand in for the str/[u8] tokenizers, which the generic layer only calls through the DiffableStr trait".into(),
